@@ -798,6 +798,228 @@ def check_constant_reproduced(repo, rep):
     rep.floor(rid, 40)
 
 
+# ------------------------------------------------------------------ ranges, orderings, homogeneity (the property's second sentence)
+RANGES = [
+    # (indicator, overrides, {field: (lo, hi)}): hi / lo None = unbounded on that side
+    ("rsi", {}, {"value": (0, 100)}), ("stoch", {}, {"k": (0, 100), "d": (0, 100)}), ("stochf", {}, {"k": (0, 100), "d": (0, 100)}),
+    ("srsi", {}, {"k": (0, 100), "d": (0, 100)}), ("willr", {}, {"value": (-100, 0)}), ("mfi", {}, {"value": (0, 100)}),
+    ("cmo", {}, {"value": (-100, 100)}), ("aroon", {}, {"down": (0, 100), "up": (0, 100)}), ("aroonosc", {}, {"value": (-100, 100)}),
+    ("ultosc", {}, {"value": (0, 100)}), ("adx", {}, {"value": (0, 100)}), ("di", {}, {"plus": (0, 100), "minus": (0, 100)}),
+    ("atr", {}, {"value": (0, None)}), ("natr", {}, {"value": (0, None)}), ("trange", {}, {"value": (0, None)}),
+    ("stddev", {}, {"value": (0, None)}), ("var", {}, {"value": (0, None)}), ("bollinger_bands_width", {}, {"value": (0, None)}),
+    ("mean_ad", {}, {"value": (0, None)}), ("median_ad", {}, {"value": (0, None)}), ("ui", {}, {"value": (0, None)}), ("mass", {}, {"value": (0, None)}),
+    ("dm", {}, {"plus": (0, None), "minus": (0, None)}),
+]
+BANDS = [("bollinger_bands", {}), ("keltner", {}), ("donchian", {})]       # upperband >= middleband >= lowerband
+
+
+def _range_valuations(n):
+    """witness candles for refuting a range: the adversarial set of the other rules plus flat candles, a spike and a crash"""
+    vals = list(IR.valuations(n))
+
+    def tab(name, rows):
+        vals.append((name, lambda tag, k, col, rows=rows: rows[k][col]))
+    tab("flat candles, slowly rising", [(0.0, 100.0 + k, 100.0 + k, 100.0 + k, 100.0 + k, 1.0) for k in range(n)])
+    tab("spike", [(0.0, 100.0, 100.0 if k != n - 3 else 900.0, 101.0 if k != n - 3 else 1000.0, 99.0, 5.0) for k in range(n)])
+    tab("crash then flat", [(0.0, 500.0 if k < n // 2 else 5.0, 500.0 if k < n // 2 - 1 else 5.0, 500.0 if k <= n // 2 else 5.0, 5.0 if k >= n // 2 - 1 else 500.0, 0.0 if k % 3 else 2.0)
+                            for k in range(n)])
+    return vals
+
+
+def check_ranges(repo, rep):
+    from vlib.indic_range import Prover, Budget
+    rid = "C15-R6"
+    rep.rule(rid, "bounded oscillators stay inside their range, volatility measures are non-negative, bands are ordered and the Donchian channel "
+                  "encloses the candle: every numeric element of the sequential series (default parameters, 40 candles) is decided by an interval "
+                  "/ order analysis of its extracted expression that holds for EVERY valid candle valuation (prices > 0, volume >= 0, low <= "
+                  "open, close <= high): sums on their flattened linear form, quotients bounded by their denominator, guarded values under "
+                  "their guard, x <= max(.., x, ..).  An obligation that is not provable is evaluated on nine adversarial valuations (ties, flat "
+                  "candles, spikes, no-trade candles): a value outside the range is a counterexample, otherwise it stays undecided")
+    n = 40
+    eps = 1e-7
+    proved = refuted = open_ = 0
+    vals = None
+
+    def decide(name, f, what, items, prove, holds):
+        """items: indices; prove(P, i) -> bool; holds(i, val) -> bool or None (not a number)"""
+        nonlocal proved, refuted, open_, vals
+        P = Prover()
+        P.deadline = __import__("time").time() + 12.0
+        unproved = []
+        for i in items:
+            try:
+                ok = prove(P, i)
+            except Budget:
+                ok = False
+            if not ok:
+                unproved.append(i)
+        bad = None
+        if unproved:
+            vals = vals or _range_valuations(n)
+            for vn, val in vals:
+                for i in unproved:
+                    try:
+                        h = holds(i, val)
+                    except Undecided:
+                        h = None
+                    if h is False:
+                        bad = (vn, i)
+                        break
+                if bad:
+                    break
+        if bad:
+            refuted += 1
+            rep.violation(rid, f"{name}|{f}|{what}", f"{name}.{f}: element {bad[1]} breaks '{what}' on the valuation '{bad[0]}' (and the interval / order analysis cannot prove it)")
+        elif unproved:
+            open_ += 1
+            rep.undecided_item(f"{name}.{f}: '{what}' not provable for {len(unproved)} of {len(items)} elements; no counterexample among the witness valuations")
+        else:
+            proved += 1
+        rep.instance(rid, f"{name}|{f}|{what}", {"indicator": name, "field": f, "obligation": what, "elements": len(items),
+                                                  "proved_for_all_valuations": len(items) - len(unproved), "counterexample": bad})
+
+    for name, over, fields in RANGES:
+        try:
+            out = run_ind(repo, name, n=n, **over)
+        except Undecided as e:
+            rep.undecided_item(f"{name}: {e}")
+            continue
+        for f, (lo, hi) in fields.items():
+            arr = out.get(f)
+            if not isinstance(arr, NA) or arr.ndim != 1:
+                rep.undecided_item(f"{name}.{f}: not a series")
+                continue
+            items = [i for i, x in enumerate(arr.data) if isinstance(x, D)]
+            if not items:
+                rep.undecided_item(f"{name}.{f}: no computed element on {n} candles")
+                continue
+
+            def prove(P, i, arr=arr, lo=lo, hi=hi):
+                a, b = P.interval(arr.data[i])
+                return (lo is None or a >= lo - eps) and (hi is None or b <= hi + eps)
+
+            def holds(i, val, arr=arr, lo=lo, hi=hi):
+                v = eval_dag(arr.data[i], val)
+                if v is None or not isinstance(v, (int, float)) or v != v or abs(v) == float("inf"):
+                    return None
+                tol = 1e-7 * max(1.0, abs(v))
+                return (lo is None or v >= lo - tol) and (hi is None or v <= hi + tol)
+            decide(name, f, f"in [{lo if lo is not None else '-inf'}, {hi if hi is not None else 'inf'}]", items, prove, holds)
+    for name, over in BANDS:
+        try:
+            out = run_ind(repo, name, n=n, **over)
+        except Undecided as e:
+            rep.undecided_item(f"{name}: {e}")
+            continue
+        up, mid, low = out.get("upperband"), out.get("middleband"), out.get("lowerband")
+        if not all(isinstance(x, NA) and x.ndim == 1 and len(x.data) == n for x in (up, mid, low)):
+            rep.undecided_item(f"{name}: bands are not three series of {n} entries")
+            continue
+        items = [i for i in range(n) if all(isinstance(x.data[i], D) for x in (up, mid, low))]
+        pairs = [("lowerband <= middleband", low, mid), ("middleband <= upperband", mid, up)]
+        if name == "donchian":
+            cnd = IR.candles(n)
+            hi_col = [cnd.data[i][3] if hasattr(cnd, "data") and isinstance(cnd.data[i], (list, tuple)) else None for i in range(n)]
+            pairs += [("high <= upperband", "H", up), ("lowerband <= low", low, "L")]
+        for what, a, b in pairs:
+            def side(x, i):
+                if isinstance(x, str):
+                    from vlib.indic_vals import mk
+                    return _input(i, 3 if x == "H" else 4)
+                return x.data[i]
+
+            def prove(P, i, a=a, b=b):
+                return P.le(side(a, i), side(b, i))
+
+            def holds(i, val, a=a, b=b):
+                x, y = eval_dag(side(a, i), val), eval_dag(side(b, i), val)
+                if any(v is None or not isinstance(v, (int, float)) or v != v for v in (x, y)):
+                    return None
+                return x <= y + 1e-7 * max(1.0, abs(x), abs(y))
+            decide(name, "bands", what, items, prove, holds)
+    rep.extra["ranges"] = {"obligations_proved_for_all_valuations": proved, "refuted": refuted, "not_provable_no_counterexample": open_}
+    rep.floor(rid, 30)
+    if proved < 20:
+        raise AnalysisError(f"C15-R6: only {proved} range / order obligations proved (at least 20 on the reference tree): the prover or the interpreter lost ground")
+
+
+def _input(i, col, tag="c"):
+    """the raw candle input node (tag, candle index, column) as the dependence interpreter creates it"""
+    from vlib.indic_vals import D as _D
+    return _D(1 << i, hash(("in", tag, i, col)), "in", (tag, i, col))
+
+
+OSCILLATOR_MATYPES = {21: "reflex", 22: "trendflex"}     # normalised by their own RMS: dimensionless by definition, no averages
+
+
+def check_homogeneity(repo, rep):
+    from vlib.indic_range import dimension, ZERO
+    from fractions import Fraction
+    rid = "C15-R7"
+    rep.rule(rid, "price-homogeneous averages scale linearly with the price: dimensional analysis of the extracted expression of the newest "
+                  "element of every moving average of the selector (and of every public indicator with the signature of an average that "
+                  "reproduces a constant): degree 1 in the prices and 0 in the volume - sums / max / min / choices join equal degrees, "
+                  "products add them, quotients subtract them, a comparison must compare like quantities (or with zero).  An expression that is "
+                  "not provably homogeneous is evaluated on witness candles and on the same candles with every price multiplied by 3: a "
+                  "result that is not multiplied by 3 is a counterexample")
+    fn = repo.func("jesse/indicators/ma.py", "ma")
+    types = sorted({c.comparators[0].value for n_ in ast.walk(fn) if isinstance(n_, ast.If) for c in ([n_.test] if isinstance(n_.test, ast.Compare) else
+                                                                                                         (n_.test.values if isinstance(n_.test, ast.BoolOp) else []))
+                    if isinstance(c, ast.Compare) and isinstance(c.left, ast.Name) and c.left.id == "matype" and isinstance(c.comparators[0], ast.Constant)
+                    and isinstance(c.comparators[0].value, int)})
+    subjects = [(f"ma(matype={k})", "jesse/indicators/ma.py", fn, {"matype": k}) for k in types]
+    for pn, prel, pfn in IR.public_indicators(repo):
+        names = [a.arg for a in pfn.args.args]
+        if pn != "ma" and {"period", "source_type", "sequential"} <= set(names) and not any("matype" in a for a in names):
+            subjects.append((pn, prel, pfn, {}))
+    n = 60
+    proved = 0
+    vals = IR.valuations(n)[:3]
+    for label, rel_, fn_, over0 in subjects:
+        r = IR.run_indicator(repo, rel_, fn_, n, True, overrides=dict(over0, period=7))
+        if r[0] != "ok" or not isinstance(r[1], NA) or r[1].ndim != 1 or not isinstance(r[1].data[-1], D):
+            continue
+        last = r[1].data[-1]
+        # is it an average at all?  (the newest element reproduces a constant price) - oscillators / high-pass types are not held to this
+        try:
+            fcs = [(c, eval_dag(last, lambda tag, i, col, c=c: 0.0 if col == 0 else 7.0 if col == 5 else c)) for c in (100.0, 37.5)]
+        except Undecided:
+            continue
+        selector = label.startswith("ma(")
+        if selector and over0.get("matype") in OSCILLATOR_MATYPES:
+            rep.instance(rid, f"{label}|oscillator")
+            continue
+        if not selector and not all(isinstance(fc, float) and abs(fc - c) <= 1e-6 * c for c, fc in fcs):
+            # (a public indicator with the signature of an average is held to this only if it IS one; every type of the selector is)
+            rep.instance(rid, f"{label}|not-an-average")
+            continue
+        dim = dimension(last)
+        ok = dim == (Fraction(1), Fraction(0))
+        bad = None
+        if not ok:
+            for vn, val in vals:
+                try:
+                    a = eval_dag(last, val)
+                    b = eval_dag(last, lambda tag, i, col, val=val: val(tag, i, col) * (3.0 if col in (1, 2, 3, 4) else 1.0))
+                except Undecided:
+                    continue
+                if all(isinstance(x, float) and x == x for x in (a, b)) and abs(b - 3.0 * a) > 1e-7 * max(1.0, abs(b)):
+                    bad = (vn, a, b)
+                    break
+            if bad:
+                rep.violation(rid, f"{label}|homogeneity", f"{label} (period 7): the newest value is {bad[1]!r} on the valuation '{bad[0]}' and {bad[2]!r} when every price is "
+                                                            f"multiplied by 3 (expected {3 * bad[1]!r}): the average does not scale with the price")
+            else:
+                rep.undecided_item(f"{label}: not provably homogeneous (dimension {dim}); scales correctly on the witness candles")
+        else:
+            proved += 1
+        rep.instance(rid, f"{label}|degree", {"subject": label, "degree_price_volume": None if dim is None else str(dim), "proved": ok})
+    rep.extra["homogeneity_proved"] = proved
+    rep.floor(rid, 30)
+    if proved < 20:
+        raise AnalysisError(f"C15-R7: only {proved} averages proved homogeneous (at least 20 on the reference tree)")
+
+
 def run(repo: Repo, rep, tier: str):
     rep.assume("symbolic identities are for input length 12 (ma selector: 70) and periods 3/4/5; exact rational arithmetic; comparisons, max/min, abs, sqrt are canonical opaque atoms")
     rep.guarded(check_ma_selector, repo, rep)
@@ -806,7 +1028,8 @@ def run(repo: Repo, rep, tier: str):
     rep.guarded(check_constant_reproduced, repo, rep)
     rep.guarded(check_windowed, repo, rep)
     rep.guarded(check_recurrences, repo, rep)
-    rep.undecided_item("numeric ranges of bounded oscillators, band ordering, non-negativity and price homogeneity (value properties; follow from the decided formulas only by further arithmetic reasoning)")
+    rep.guarded(check_ranges, repo, rep)
+    rep.guarded(check_homogeneity, repo, rep)
     rep.undecided_item("value agreement of recursive smoothers after seed decay (the recurrence step is decided)")
     rep.undecided_item("indicators outside the reference table (slow stochastic smoothing, adx/di/dm, trima, kama, ...)")
 
